@@ -3,7 +3,7 @@
 (* generating configurations of ClientLib (one cfg per property family).   *)
 EXTENDS ClientLib
 
-A0 == [api |-> "", call |-> "", mid |-> 0, tl |-> <<>>, short |-> FALSE, stid |-> 0, qos |-> 0, tid |-> 0,
+A0 == [api |-> "", call |-> "", mid |-> 0, any |-> FALSE, tl |-> <<>>, short |-> FALSE, stid |-> 0, qos |-> 0, tid |-> 0,
        dur |-> 0, dsec |-> 0, h |-> "", pl |-> "s:p1"]
 G0 == [t |-> "", qos |-> 0, tit |-> 0, tid |-> 0, mid |-> 0, rc |-> 0, tl |-> <<>>, data |-> "s:m1",
        dup |-> FALSE, midsrc |-> "none"]
@@ -105,6 +105,16 @@ Gw_C28 == {Gw("CONNACK", "none"), GwRc("CONNACK", "none", 3), Gw("DISCONNECT", "
            GwRc("REGACK", "any", 2), GwAck("REGACK", "pend", 7), GwRc("SUBACK", "pend", 1), GwAck("PUBACK", "any", 7),
            Gw("PUBREC", "pend"), Gw("ADVERTISE", "none"), GwPub(0, 0, 99, <<>>, "none"),
            Gw("WILLTOPICREQ", "none"), Gw("WILLMSGREQ", "none")}
+
+(* C28r: calls out of place - refused by the library (Sleep while disconnected, Publish of an unregistered topic,
+   Publish with an invalid QoS), no-ops (Disconnect while disconnected) and data calls the library sends although
+   the client is not active - each followed by ordinary traffic: connect, acknowledgements, a DISCONNECT from the
+   gateway.  Every schedule is executed. *)
+OutOfPlace(a) == [a EXCEPT !.any = TRUE]
+Apis_C28r == {Api("Connect"), OutOfPlace(SleepApi(10)), OutOfPlace(Api("Disconnect")), OutOfPlace(ApiT("Publish", AC, 1, "")),
+              OutOfPlace([ApiT("Publish", <<"xy">>, 4, "") EXCEPT !.short = TRUE, !.stid = 30841]),
+              OutOfPlace(ApiT("Register", AB, 0, ""))}
+Gw_C28r == {Gw("CONNACK", "none"), Gw("DISCONNECT", "none"), GwAck("REGACK", "pend", 7)}
 
 ---- (* C33: keep-alive against sleep / disconnect / other calls *)
 Apis_C33 == {Api("Connect"), SleepApi(10), Api("Disconnect"), Api("Close"),
